@@ -156,6 +156,140 @@ def _number_to_python(cls: ast.ClassDef) -> str:
             "Definition num_rejects_range (num : Z) (mn mx : option Z) : bool := " + t2.b(i2.test) + ".\n")
 
 
+# ---------------------------------------------------------------- T2: the decision chains of StateMachineMatcher.match
+
+_MATCH_ATOMS = {
+    "result is None": "(negb conv_ok)",
+    "rule.strict_slashes": "strict",
+    "rule.methods is not None": "has_m",
+    "rule.methods is None": "(negb has_m)",
+    "method not in rule.methods": "(negb in_m)",
+    "method in rule.methods": "in_m",
+    "rule.websocket != websocket": "(negb ws_eq)",
+    "websocket != rule.websocket": "(negb ws_eq)",
+    "websocket == rule.websocket": "ws_eq",
+    "rule.websocket == websocket": "ws_eq",
+}
+
+
+def _t2_loop_body(stmts: list[ast.stmt], where: str) -> str:
+    """the body of one `for rule in ...:` loop of _match as a Gallina expression of type gaction.
+    Falling off the end of the body is `continue` (GContinue)."""
+    t2 = _T2(_MATCH_ATOMS)
+
+    def seq(sts) -> str:
+        if not sts:
+            return "GContinue"
+        st, rest = sts[0], sts[1:]
+        txt = _norm(st)
+        if txt == "result = _convert(rule, values)":
+            return seq(rest)
+        if txt == "continue":
+            return "GContinue"
+        if txt == "have_match_for.update(rule.methods)":
+            _expect(not rest, f"{where}: statements after have_match_for.update")
+            return "GHaveMatch"
+        if txt == "websocket_mismatch = True":
+            _expect(not rest, f"{where}: statements after websocket_mismatch = True")
+            return "GWsMismatch"
+        if txt == "return (rule, result)":
+            return "GReturn"
+        if txt == "raise SlashRequired()":
+            return "GSlashRequired"
+        if isinstance(st, ast.If):
+            then = seq(list(st.body))
+            # an if without else continues with the following statements when the test fails or the branch falls through
+            els = seq(list(st.orelse)) if st.orelse else None
+            after = seq(rest)
+            if els is None:
+                # no else: the then-branch must leave the iteration itself when statements follow (fail closed otherwise)
+                _expect(not rest or _ends(st.body), f"{where}: an if without else falls through into following statements")
+                els = after
+            else:
+                _expect(not rest, f"{where}: statements after an if/else chain")
+            return f"(if {t2.b(st.test)} then {then} else {els})"
+        raise px.Unsupported(f"{where}: statement not understood: {txt!r}")
+
+    def _ends(body) -> bool:
+        last = body[-1]
+        return isinstance(last, (ast.Continue, ast.Return, ast.Raise))
+    return seq(stmts)
+
+
+def _matcher_t2(mm: ast.FunctionDef) -> str:
+    inner = [n for n in mm.body if isinstance(n, ast.FunctionDef) and n.name == "_match"]
+    _expect(len(inner) == 1, "StateMachineMatcher.match: inner _match not found")
+    fm = inner[0]
+    body = [s_ for s_ in fm.body if not isinstance(s_, (ast.Nonlocal, ast.Expr))]
+    # block order of _match: base case, part = parts[0], static, dynamic, late clause, return None
+    tags = []
+    base = late = None
+    for st in body:
+        txt = _norm(st)
+        if isinstance(st, ast.If) and _norm(st.test) == "parts == []":
+            tags.append(1)
+            base = st
+        elif txt == "part = parts[0]":
+            pass
+        elif isinstance(st, ast.If) and _norm(st.test) == "part in state.static":
+            tags.append(2)
+            _expect([_norm(x) for x in st.body] == ["rv = _match(state.static[part], parts[1:], values)", "if rv is not None:\n    return rv"],
+                    "_match: static transition block changed")
+        elif isinstance(st, ast.For) and _norm(st.iter) == "state.dynamic":
+            tags.append(3)
+        elif isinstance(st, ast.If) and _norm(st.test) == "parts == ['']":
+            tags.append(4)
+            late = st
+        elif txt == "return None":
+            tags.append(9)
+        else:
+            raise px.Unsupported(f"_match: unexpected top-level statement {txt[:60]!r}")
+    _expect(base is not None and late is not None, "_match: base case or late clause missing")
+    # base case: the rules loop, then the static[""] loop, then return None
+    btags, here = [], None
+    slash = None
+    for st in base.body:
+        if isinstance(st, ast.For) and _norm(st.iter) == "state.rules":
+            btags.append(5)
+            here = st
+        elif isinstance(st, ast.If) and _norm(st.test) == "'' in state.static":
+            btags.append(6)
+            _expect(len(st.body) == 1 and isinstance(st.body[0], ast.For) and _norm(st.body[0].iter) == "state.static[''].rules",
+                    "_match: slash-required block changed")
+            slash = st.body[0]
+        elif _norm(st) == "return None":
+            btags.append(9)
+        else:
+            raise px.Unsupported(f"_match base case: unexpected statement {_norm(st)[:60]!r}")
+    _expect(here is not None and slash is not None, "_match: base-case loops missing")
+    _expect(len(late.body) == 1 and isinstance(late.body[0], ast.For) and _norm(late.body[0].iter) == "state.rules", "_match: late clause changed")
+    args = "(conv_ok strict has_m in_m ws_eq : bool)"
+    out = "(* StateMachineMatcher.match._match: the three rule loops as decision functions, and the order of its blocks (T2) *)\n"
+    out += "Inductive gaction := GContinue | GHaveMatch | GWsMismatch | GReturn | GSlashRequired.\n"
+    out += f"Definition g_step_here {args} : gaction := {_t2_loop_body(list(here.body), '_match rules loop')}.\n"
+    out += f"Definition g_step_slash {args} : gaction := {_t2_loop_body(list(slash.body), '_match slash loop')}.\n"
+    out += f"Definition g_step_late {args} : gaction := {_t2_loop_body(list(late.body[0].body), '_match late loop')}.\n"
+    out += f"Definition g_match_blocks : list N := {px.coq_nlist(tags)}.\n"
+    out += f"Definition g_base_blocks : list N := {px.coq_nlist(btags)}.\n"
+    # the second pass of match()
+    t2 = _T2({"self.merge_slashes": "merge", "rv is None": "rv_none", "rv[0].merge_slashes is False": "(negb rule_merge)",
+              "rv is not None": "(negb rv_none)"})
+    second = nomatch = None
+    for n in ast.walk(mm):
+        if isinstance(n, ast.If) and "merge_slashes" in _norm(n.test) and "self.merge_slashes" in _norm(n.test):
+            second = n
+        if isinstance(n, ast.If) and "rv[0].merge_slashes" in _norm(n.test):
+            nomatch = n
+    _expect(second is not None and nomatch is not None, "match: second-pass tests not found")
+    _expect(isinstance(nomatch.body[0], ast.Raise) and "NoMatch" in _norm(nomatch.body[0])
+            and nomatch.orelse and "RequestPath" in _norm(nomatch.orelse[0]), "match: second-pass outcome changed")
+    _expect(len(second.orelse) == 1 and isinstance(second.orelse[0], ast.If) and _norm(second.orelse[0].test) == "rv is not None",
+            "match: elif rv is not None changed")
+    out += f"Definition g_second_pass (merge rv_none : bool) : bool := {t2.b(second.test)}.\n"
+    out += f"Definition g_second_nomatch (rv_none rule_merge : bool) : bool := {t2.b(nomatch.test)}.\n"
+    return out
+
+
 # ---------------------------------------------------------------- main generator
 
 def routing_gen_text() -> str:
@@ -408,6 +542,7 @@ def routing_gen_text() -> str:
         "for part in rule._parts:"])
     upd = _method(sm, "update")
     _need(upd, "StateMachineMatcher.update", ["state.dynamic.sort(key=lambda entry: entry[0].weight)"])
+    matcher_t2_text = _matcher_t2(mm)
 
     # --- map.py
     ma = px.find_class(mapm, "MapAdapter")
@@ -466,6 +601,7 @@ def routing_gen_text() -> str:
     out += "Definition zsome (o : option Z) : bool := match o with Some _ => true | None => false end.\n"
     out += "Definition zget (o : option Z) : Z := match o with Some z => z | None => 0%Z end.\n"
     out += "(* NumberConverter.to_python: the two rejection tests, translated structurally (T2) *)\n" + t2_text
+    out += matcher_t2_text
     out += f"Definition rx_base : list N := {S(base_regex)}.\n"
     out += f"Definition rx_int : list N := {S(int_regex)}.\n"
     out += f"Definition rx_float : list N := {S(float_regex)}.\n"
